@@ -6,7 +6,7 @@ reference, at every step and across process crashes (spec/StoreCrash.tla).
             property-level clauses; plus the wrong design (RecordFirst) which must be
             caught by the crash enumeration in the model
  2. GEN     every Crash / Answer / Close / Purge transition of a bounded instance as
-            the input history reaching it (+ all crash-free histories in thorough)
+            the input history reaching it (+ all histories of 4 answered updates in thorough)
  3. REPLAY  each history runs on the real _update / Worker.do / db.util code on real
             files, every process life a forked child killed where TLC chose
             (harness/storecrash_h.py); one trace line per intercepted step
@@ -54,10 +54,12 @@ def gen(chk, name, spec, emit, keys, contents, maxupd, maxev, view=True, timeout
     seen = set()
     out = []
     for row in tlc.printed(res, 'CASE'):
-        if row[1] in seen:
+        h = json.loads(row[1])
+        key = json.dumps(h, sort_keys=True)  # TLC evaluates the constraint more than once per transition
+        if key in seen:
             continue
-        seen.add(row[1])
-        out.append(json.loads(row[1]))
+        seen.add(key)
+        out.append(h)
     chk.note(f'gen {name}: {len(out)} histories from {res.distinct} distinct states in {res.wall:.1f}s')
     return out
 
@@ -291,7 +293,7 @@ def run(pid, tier, seed, replay=None):
     ]
     return chk.finish(
         'histories = every Crash (12 kill sites) / Answer / Close / Purge transition of the bounded instance as the input history reaching it '
-        'plus every crash-free history of 4 updates in thorough; a small witness set (one history per kill site and per antecedent) always runs, the rest round-robin '
+        'plus every history of 4 answered updates (ended by close or kill) in thorough; a small witness set (one history per kill site and per antecedent) always runs, the rest round-robin '
         'over the kill sites until the replay time budget of the tier is spent (counts are of executed histories); each runs on the real code in forked children '
         'and every recorded state is validated by TLC. non-trivial = history with a crash or a repeated content; distinct by input history'
     )
